@@ -142,8 +142,10 @@ def run_case(ctx, shape, recursive, linear):
     if nontriv and ctx._cli_left > 0 and ctx.rng.random() < 0.5:
         ctx._cli_left -= 1
         cli_case(ctx, shape, case, model, zval, cot, recursive)
+    from .jac import early_internal
+    iso = ['jpp-internal-node-outside-some-step'] if any(early_internal(r) for r in shape['rules']) else []
     for name in ('real', 'log'):
-        for method in methods:
+        for method, jp in [(m_, False) for m_ in methods] + ([('fixed-point', True)] if name == 'real' else []):
             subset = ctx.rng.random() < 0.3
             fgg, info = semgen.build(shape, name, torch.float64)
             leaves = {}
@@ -158,7 +160,8 @@ def run_case(ctx, shape, recursive, linear):
             try:
                 with warnings.catch_warnings():
                     warnings.simplefilter('ignore')
-                    z = fggs.sum_product(fgg, method=method, semiring=semgen.semiring_of(name, torch.float64), tol=1e-12, kmax=3000)
+                    z = fggs.sum_product(fgg, method=method, semiring=semgen.semiring_of(name, torch.float64), tol=1e-12, kmax=3000,
+                                         **({'j_precompute': True} if jp else {}))
                 zd = z.to_dense().reshape(-1)
                 c = torch.tensor(cot, dtype=torch.float64)
                 if name == 'log':
@@ -174,10 +177,13 @@ def run_case(ctx, shape, recursive, linear):
                     obj.backward()
                     grads = {i: w.physical.grad for i, w in leaves.items()}
             except Exception as e:  # noqa
-                ctx.fail(f'backward through sum_product raised {type(e).__name__}: {e}', dict(case, semiring=name, method=method), repr(e), None,
-                         tags=['raises', name, method, type(e).__name__])
+                import traceback
+                where = [f.name for f in traceback.extract_tb(e.__traceback__)]
+                ctx.fail(f'backward through sum_product raised {type(e).__name__}: {e}', dict(case, semiring=name, method=method, j_precompute=jp), repr(e), None,
+                         tags=['raises', name, method, type(e).__name__] + (['j_precompute=True'] if jp else []) +
+                              (['in:J_precompute_products'] if 'J_precompute_products' in where else []))
                 continue
-            ctx.count(f'{name}.{method}')
+            ctx.count(f'{name}.{method}' + ('.j_precompute' if jp else ''))
             for i, w in leaves.items():
                 g = grads[i]
                 gl = None if g is None else w.nonphysical().reincarnate(g).to_dense().reshape(-1).tolist() if g.shape == w.physical.shape else None
@@ -194,9 +200,9 @@ def run_case(ctx, shape, recursive, linear):
                     ctx.evaluations += 1
                     tol = 1e-5 if recursive or name == 'log' else 1e-10
                     if not (abs(got - float(want)) <= tol * max(1.0, abs(float(want)))):
-                        ctx.fail(f'{name}/{method}: gradient w.r.t. weight entry (t{i},{j}) is {got}, the derivative is {float(want)}',
-                                 dict(case, semiring=name, method=method, entry=[i, j], cotangent=cot), got, float(want),
-                                 tags=['gradient', name, method, 'recursive' if recursive else 'nonrecursive'])
+                        ctx.fail(f'{name}/{method}' + ('/j_precompute' if jp else '') + f': gradient w.r.t. weight entry (t{i},{j}) is {got}, the derivative is {float(want)}',
+                                 dict(case, semiring=name, method=method, j_precompute=jp, entry=[i, j], cotangent=cot), got, float(want),
+                                 tags=['gradient', name, method, 'recursive' if recursive else 'nonrecursive'] + ((['j_precompute=True'] + iso) if jp else []))
     return True
 
 
